@@ -106,7 +106,7 @@ def run(ctx):
     f = os.path.join(ctx.work, "tmpl.json")
     with open(f, "w") as fh:
         json.dump(tm, fh)
-    r = ctx.tlc("Gen_C17", CFG % ((3, 2) if ctx.thorough else (2, 2)), env={"INST_FILE": f}, tag="Gen_C17", coverage=True, timeout=7200)
+    r = ctx.tlc("Gen_C17", CFG % ((2, 3) if ctx.thorough else (2, 2)), env={"INST_FILE": f}, tag="Gen_C17", coverage=True, timeout=7200)
     cases = r.prints
     ctx.extra["cases_enumerated_by_tlc"] = len(cases)
     cap = 4000 if ctx.thorough else 360      # each DBN query rebuilds and calibrates two clique trees (~0.1 s): replay a seeded sample
